@@ -688,9 +688,18 @@ func orderInsensitiveCollector(p *Program, f *ssa.Function, depth int) bool {
 			}
 		}
 	}
-	sites := p.callSitesOf(f)
+	return resultSortedByCallers(p, f, 0)
+}
+
+// resultSortedByCallers: at every production call site the collector's result goes into a
+// function that sorts before it returns — directly, or after the caller merely returned it
+// to its own callers (a forwarding wrapper), to a small depth.
+func resultSortedByCallers(p *Program, f *ssa.Function, depth int) bool {
+	if depth > 2 {
+		return false
+	}
 	n := 0
-	for _, s := range sites {
+	for _, s := range p.callSitesOf(f) {
 		if !IsProd(s.Fn) {
 			continue
 		}
@@ -705,6 +714,9 @@ func orderInsensitiveCollector(p *Program, f *ssa.Function, depth int) bool {
 				if g := cl.Common().StaticCallee(); g != nil && IsOwn(g) && sortsBeforeReturn(g) {
 					ok = true
 				}
+			}
+			if _, isRet := r.(*ssa.Return); isRet && resultSortedByCallers(p, s.Fn, depth+1) {
+				ok = true
 			}
 		}
 		if !ok {
@@ -843,6 +855,32 @@ func checkVoteInfoCarryOver(c *Ctx, prop string, setP *ssa.Function) {
 		c.Require(rule, FuncKey(setP)+": parameters key", p.Pos(setP.Pos()), "the new parameters are stored under bytes.FromUint32(h')", false, "key not recognised")
 		return
 	}
+	// an index of the whole current list: a local map whose every insertion happens in a loop
+	// ranging over bftVotes.activeValidatorsVoteInfo and stores that loop's element
+	indexMaps := map[ssa.Value]bool{}
+	for _, b := range blocksDeep(setP) {
+		for _, in := range b.Instrs {
+			mk, ok := in.(*ssa.MakeMap)
+			if !ok {
+				continue
+			}
+			okAll, n := true, 0
+			for _, r := range *mk.Referrers() {
+				mu, ok := r.(*ssa.MapUpdate)
+				if !ok {
+					continue
+				}
+				n++
+				vt := T(mu.Value).String()
+				if !strings.Contains(vt, ".activeValidatorsVoteInfo[") {
+					okAll = false
+				}
+			}
+			if okAll && n > 0 {
+				indexMaps[mk] = true
+			}
+		}
+	}
 	isLookup := func(t *Term, k int) bool {
 		if t == nil || t.Op != "extract" || len(t.Args) != 1 {
 			return false
@@ -851,6 +889,9 @@ func checkVoteInfoCarryOver(c *Ctx, prop string, setP *ssa.Function) {
 			return false
 		}
 		cl := t.Args[0]
+		if cl.Op == "lookup" && len(cl.Args) == 2 && cl.Args[0].V != nil && indexMaps[cl.Args[0].V] {
+			return true
+		}
 		return cl.Op == "call" && strings.HasSuffix(cl.Sym, "liskbft.ActiveValidators).get")
 	}
 	lookupFailed := func(f Fact) bool {
